@@ -18,6 +18,8 @@ type verifRemote struct {
 	createFail bool
 	inserted   map[string]int
 	sideEffect int
+	deletedRecords   []string
+	deletedShardDirs []string
 }
 
 var verifRemoteScript *verifRemote
@@ -48,8 +50,40 @@ func (r *verifRemote) handle(remoteFn string, args Destinationer, reply any) err
 		}
 		r.inserted[a.ShardId] += len(a.Points)
 		return nil
+	case "ClusterNode.RPCDeleteCollection":
+		a := args.(*RPCDeleteCollectionRequest)
+		r.deletedRecords = append(r.deletedRecords, a.Collection.UserId+"/"+a.Collection.Id)
+		return nil
+	case "ClusterNode.RPCDeleteCollectionShards":
+		a, rep := args.(*RPCDeleteCollectionShardsRequest), reply.(*RPCDeleteCollectionShardsResponse)
+		r.deletedShardDirs = append(r.deletedShardDirs, a.Collection.UserId+"/"+a.Collection.Id)
+		rep.DeletedShardIds = append(rep.DeletedShardIds, a.Collection.ShardIds...)
+		return nil
 	}
 	return errors.New("verif remote: unsupported " + remoteFn)
+}
+
+// C16: deleting a collection addresses the record and the shard directories of exactly that user
+// and collection on every server involved.
+func VerifDeleteCollectionAddressesOwnData() {
+	servers := []string{"self", "other"}
+	c := &ClusterNode{Servers: servers, MyHostname: "self"}
+	r := &verifRemote{counts: map[string]int64{}, infoFails: map[string]bool{}, insertFail: map[string]bool{}, inserted: map[string]int{}}
+	verifRemoteScript = r
+	verifNodes = map[string]*ClusterNode{}
+	defer func() { verifRemoteScript, verifNodes = nil, nil }()
+	n := nondetIntRange(0, 2)
+	ids := []string{remoteName("s0", servers), remoteName("s1", servers)}[:n]
+	col := models.Collection{UserId: remoteName("alice", servers), Id: "archive", ShardIds: ids}
+	deleted, err := c.DeleteCollection(col)
+	vcover("reached")
+	vassert("delete-collection-ok", err == nil)
+	vassert("record-of-exactly-this-user-and-collection-deleted", len(r.deletedRecords) == 1 && r.deletedRecords[0] == col.UserId+"/archive")
+	for _, d := range r.deletedShardDirs {
+		vassert("shard-deletion-addresses-this-users-collection-directory", d == col.UserId+"/archive")
+	}
+	vassert("shard-servers-contacted-iff-there-are-shards", (len(r.deletedShardDirs) > 0) == (n > 0))
+	vassert("deleted-shard-ids-reported", len(deleted) == n)
 }
 
 // remoteName returns a key that routing sends to the other server: symbolically by assumption on
